@@ -297,5 +297,37 @@ mod h {
         kani::cover!(!has_label && !has_admin);
     }
 
+    /// `build2`: the same plus the salt, in the salted form of the instantiate message.
+    #[kani::proof]
+    #[kani::unwind(9)]
+    #[kani::stub(std::backtrace::Backtrace::capture, bt_disabled)]
+    #[kani::stub(alloc::fmt::format, fmt_stub)]
+    fn instantiate_builder_salted() {
+        let code_id: u64 = kani::any();
+        let body: u8 = kani::any();
+        let salt: [u8; 2] = kani::any();
+        let has_label: bool = kani::any();
+        let lb: u8 = kani::any();
+        kani::assume(lb < 128);
+        let mut ib = InstantiateBuilder::new(Binary::from(vec![body]), code_id);
+        if has_label {
+            ib = ib.with_label(one_char(lb));
+        }
+        match ib.build2(Binary::from(salt.to_vec())) {
+            WasmMsg::Instantiate2 { admin, code_id: cid, label, msg, funds, salt: s2 } => {
+                assert!(cid == code_id && admin.is_none() && funds.is_empty());
+                assert!(bytes_eq(msg.as_slice(), &[body]) && bytes_eq(s2.as_slice(), &salt), "arguments and salt");
+                if has_label {
+                    assert!(str_eq(&label, &one_char(lb)));
+                } else {
+                    assert!(label.is_empty(), "label empty when unset");
+                }
+            }
+            _ => assert!(false, "the salted form"),
+        }
+        kani::cover!(has_label);
+        kani::cover!(!has_label);
+    }
+
     // @PLAYBACK h@
 }
